@@ -144,3 +144,10 @@ Print Assumptions C15_emitted_sizes.
 Theorem C15_emitted_typerefs : forall t ids x, In (t, ids) typerefs -> In x ids -> x = t.
 Proof. exact emitted_typerefs. Qed.
 Print Assumptions C15_emitted_typerefs.
+
+(* pointer defaults: the getter's StructDefault/ListDefault/Default argument and the pipelined accessor
+   X_Future.F() = p.Future.Field(slot, default) name the field's own pointer slot and exactly the bytes
+   of the field's own default (nil when it has none) *)
+Theorem C15_emitted_defaults : forall k want got, In (k, (want, got)) defrefs -> got = want.
+Proof. exact emitted_defrefs. Qed.
+Print Assumptions C15_emitted_defaults.
